@@ -58,6 +58,7 @@ func newConn(width, height int, c net.Conn) *Conn {
 		br:         bufio.NewReader(c),
 		bw:         bufio.NewWriter(c),
 		fbupc:      make(chan FrameBufferUpdateRequest, 128),
+		pushDone:   make(chan struct{}),
 		closec:     make(chan bool),
 		feed:       feed,
 		Feed:       feed, // the send-only version
@@ -80,6 +81,10 @@ type Conn struct {
 	bw     *bufio.Writer
 	fbupc  chan FrameBufferUpdateRequest
 	closec chan bool // never sent; just closed
+
+	// closed when the frame pusher has ended: nobody takes update requests
+	// off fbupc any more
+	pushDone chan struct{}
 
 	// should only be mutated once during handshake, but then
 	// only read.
@@ -256,6 +261,7 @@ func (c *Conn) pushFramesLoop() {
 	// this goroutine runs outside the recover of serve and of the server's
 	// connection handler: a pixel format it cannot encode (failf panics)
 	// must end this connection, not the process
+	defer close(c.pushDone)
 	defer func() {
 		if e := recover(); e != nil {
 			log.Debugf("Client disconnect: %v", e)
@@ -497,7 +503,11 @@ func (c *Conn) handleUpdateRequest() {
 	c.read("framebuffer-update.y", &req.Y)
 	c.read("framebuffer-update.width", &req.Width)
 	c.read("framebuffer-update.height", &req.Height)
-	c.fbupc <- req
+	select {
+	case c.fbupc <- req:
+	case <-c.pushDone:
+		c.failf("frame pusher has ended")
+	}
 }
 
 // 6.4.4
